@@ -124,11 +124,11 @@ pub fn clear_rules() {
 }
 
 pub fn append_rule(rule: Arc<Rule>) -> bool {
-    #[cfg(flea1lt_sentinel_rust_verif)]
-    crate::verif::sched::point("lk:circuitbreaker.CURRENT_RULES:lock");
     // the rule maps stay locked from the membership test to the rebuild, in the order of
     // `load_rules` (current rules, breaker map, breaker rules): a concurrent clear or load must
     // not slip in between the insert and the rebuild
+    #[cfg(flea1lt_sentinel_rust_verif)]
+    crate::verif::sched::point("lk:circuitbreaker.CURRENT_RULES:lock");
     let mut current_rules = CURRENT_RULES.lock().unwrap();
     if current_rules
         .get(&rule.resource)
@@ -139,14 +139,10 @@ pub fn append_rule(rule: Arc<Rule>) -> bool {
     }
     match rule.is_valid() {
         Ok(_) => {
-            #[cfg(flea1lt_sentinel_rust_verif)]
-            crate::verif::sched::point("lk:circuitbreaker.CURRENT_RULES:lock");
             current_rules
                 .entry(rule.resource.clone())
                 .or_default()
                 .insert(Arc::clone(&rule));
-            #[cfg(flea1lt_sentinel_rust_verif)]
-            crate::verif::sched::point("lk:circuitbreaker.BREAKER_RULES:write");
         }
         Err(err) => {
             logging::warn!(
@@ -164,7 +160,7 @@ pub fn append_rule(rule: Arc<Rule>) -> bool {
     crate::verif::sched::point("lk:circuitbreaker.BREAKER_MAP:write");
     let mut breaker_map = BREAKER_MAP.write().unwrap();
     #[cfg(flea1lt_sentinel_rust_verif)]
-    crate::verif::sched::point("lk:circuitbreaker.BREAKER_RULES:read");
+    crate::verif::sched::point("lk:circuitbreaker.BREAKER_RULES:write");
     let mut breaker_rules = BREAKER_RULES.write().unwrap();
     breaker_rules
         .entry(rule.resource.clone())
